@@ -122,12 +122,29 @@ func (w *worker) runHostile(cs J) J {
 		data = EncodeCmd(jCmd(cs["cmd"]))
 	}
 	rc.c.SetWriteDeadline(time.Now().Add(2 * time.Second))
-	rc.c.Write(data)
+	// "cut": the bytes arrive in two segments with a pause in between (a slow or fragmenting client)
+	if cut, ok := cs["cut"]; ok && int(jInt(cut)) > 0 && int(jInt(cut)) < len(data) {
+		rc.c.Write(data[:jInt(cut)])
+		time.Sleep(30 * time.Millisecond)
+		rc.c.SetWriteDeadline(time.Now().Add(2 * time.Second))
+		rc.c.Write(data[jInt(cut):])
+	} else {
+		rc.c.Write(data)
+	}
 	fail := ""
+	nrep := 1
+	if v, ok := cs["replies"]; ok && jInt(v) > 1 {
+		nrep = int(jInt(v))
+	}
 	if wantReply {
-		rep, raw, err := rc.readValue(2 * time.Second)
+		var rep *Reply
+		var raw []byte
+		var err error
+		for k := 0; k < nrep && err == nil; k++ {
+			rep, raw, err = rc.readValue(2 * time.Second)
+		}
 		if err != nil {
-			fail = fmt.Sprintf("no single well-formed reply within 2 s: %v (bytes %q)", err, trunc(raw, 120))
+			fail = fmt.Sprintf("no single well-formed reply per command within 2 s: %v (bytes %q)", err, trunc(raw, 120))
 		} else {
 			res["reply"] = trunc([]byte(rep.String()), 80)
 			// no second reply may follow
